@@ -1,6 +1,6 @@
 (* C04 - The attack loop obeys its pacer and its duration. *)
 From Coq Require Import ZArith List Bool Lia.
-From V Require Import Model.AttackLTS Proofs.AttackProofs.
+From V Require Import Model.AttackLTS Proofs.AttackProofs Model.Accept Proofs.AcceptProofs.
 Import ListNotations.
 Open Scope Z_scope.
 
@@ -56,3 +56,12 @@ Example c04_example :
   Some ([(0, 0, 4, 7)], LCloseTicks) /\
   run c (init c) [CallPace; Pace 4 false; Advance 7; Wake; Sel2Tick; Advance 4; CallPace; Pace 0 false] = None.
 Proof. split; reflexivity. Qed.
+
+(* The tie to the code: the harness drives real attacks and the acceptance procedure (Model/Accept.v)
+   keeps the model states compatible with what was observed.  Every state it keeps is reachable in
+   the LTS - so every statement above about reachable states holds of the model states that
+   explain a real run. *)
+Theorem accepted_states_reachable : forall c steps out,
+  drive c steps [init c] 0 = inr out -> forall s, In s out -> reachable c s.
+Proof. exact accepted_reachable_lemma. Qed.
+Print Assumptions accepted_states_reachable.
